@@ -3,7 +3,7 @@
 # count (split over shards), shards = parallel processes with different PRNG values.
 
 PROPS = {}
-HOOK_COMMITS = ["47c42dd", "a2d506f"]
+HOOK_COMMITS = ["47c42dd", "a2d506f", "d83715b"]
 NOT_CLAIMED = {}
 
 
